@@ -24,15 +24,15 @@ def opReplace (args : List String) : String :=
   | some [p, r, s] => text (replaceAll p r s)
   | _ => "bad-op"
 
-/-- `render <template> <stateDir> <name> <excluded> <detached> <expr>` -/
+/-- `render <template> <stateDir> <name> <excluded> <envNames> <detached> <expr>` -/
 def opRender (args : List String) : String :=
   match args with
-  | [t, sd, n, ex, d, e] =>
-    match untext t, untext sd, untext n, untext ex, bool01 d, untext e with
-    | some t, some sd, some n, some ex, some d, some e =>
-      let once := exprOnce (substOthers t sd n ex d)
-      text (render t sd n ex d e) ++ (if once then " once=1" else " once=0")
-    | _, _, _, _, _, _ => "bad-op"
+  | [t, sd, n, ex, en, d, e] =>
+    match untext t, untext sd, untext n, untext ex, untext en, bool01 d, untext e with
+    | some t, some sd, some n, some ex, some en, some d, some e =>
+      let once := exprOnce (substOthers t sd n ex en d)
+      text (render t sd n ex en d e) ++ (if once then " once=1" else " once=0")
+    | _, _, _, _, _, _, _ => "bad-op"
   | _ => "bad-op"
 
 def showOptBytes : Option (List UInt8) → String
